@@ -32,3 +32,73 @@ package txresult
 //@   noframe
 //@   callpre Set: idxKey(k, uint64(idx)) && typeof(o) == typeid(ptr_receipt) && toiface(as(ptr_receipt, o)) == list[idx]
 //@   loop 0: invariant -1 <= rangeindex && rangeindex < len(list)
+
+// ---------------------------------------------------------------------------
+// C26: every indexed value of an event (and the emitting address) reaches the bloom: three bit
+// positions per entry, taken from the SHA3 hash of (position byte | value) resp. (0xff | address)
+// ---------------------------------------------------------------------------
+//@ property C26
+// ghost record of what was put into the bloom by the function under verification
+//@ smt all (declare-ghost bl_idx (Array Int Bool))
+//@ smt all (declare-ghost bl_addr Iface)
+//@ smt all (declare-ghost bl_hash BSeq)
+
+// one bit per call, in the receiver's own integer
+//@ func (lb *LogsBloom) addBit(idx)
+//@   arith bv
+//@   requires lb != nil
+//@   modifies big(addr(lb.Int))
+//@   callpre SetBit: z == addr(caller_lb.Int) && x == addr(caller_lb.Int) && i == int(idx) && b == 1
+
+// three bits: the first three big-endian 16-bit words of the hash, reduced to the bloom size
+//@ func (lb *LogsBloom) addLog(log)
+//@   arith bv
+//@   requires lb != nil
+//@   modifies big(addr(lb.Int))
+//@   callpre addBit: seq(caller_h) == sha3(seq(caller_log)) && len(caller_h) == 32
+//@   callpre addBit#0: idx == ((uint16(caller_h[0]) << 8) | uint16(caller_h[1])) & 2047
+//@   callpre addBit#1: idx == ((uint16(caller_h[2]) << 8) | uint16(caller_h[3])) & 2047
+//@   callpre addBit#2: idx == ((uint16(caller_h[4]) << 8) | uint16(caller_h[5])) & 2047
+//@   loop 0: unroll 3
+
+// the hashed entry of an indexed value is the position byte followed by the value
+//@ func (lb *LogsBloom) AddIndexedOfLog(i, b)
+//@   arith bv
+//@   nosafety
+//@   requires lb != nil
+//@   modifies big(addr(lb.Int)), ghost(bl_idx)
+//@   opt ghost:bl_idx store(ghost(bl_idx), i, true)
+//@   callpre addLog: len(log) == len(caller_b) + 1 && log[0] == byte(i) && (forall j int :: {log[1 + j]} 0 <= j && j < len(caller_b) ==> log[1 + j] == caller_b[j])
+//@ func (lb *LogsBloom) AddAddressOfLog(addr)
+//@   arith bv
+//@   requires lb != nil && addr != nil
+//@   modifies big(addr(lb.Int)), ghost(bl_addr)
+//@   opt ghost:bl_addr addr
+
+// AddLog: the address and every non-nil indexed value (also an empty one) are added at their own position
+//@ func (lb *LogsBloom) AddLog(addr, log)
+//@   arith int
+//@   requires lb != nil && addr != nil
+//@   modifies big(addr(lb.Int)), ghost(bl_idx), ghost(bl_addr)
+//@   ensures [address] len(log) > 0 ==> ghost(bl_addr) == addr
+//@   ensures [indexed] forall j int :: {log[j]} 0 <= j && j < len(log) && log[j] != nil ==> ghost(bl_idx)[j]
+//@   loop 0: invariant -1 <= rangeindex && rangeindex < len(log) && (forall j int :: {log[j]} 0 <= j && j <= rangeindex && log[j] != nil ==> ghost(bl_idx)[j]) && ghost(bl_addr) == addr
+
+// the receipt feeds its bloom with the emitting contract's address and the indexed values of the very
+// log entry it stores
+//@ func (r *receipt) AddLog(addr, indexed, data)
+//@   arith int
+//@   nosafety
+//@   modifies *
+//@   opt inline-none
+//@   opt no-callee-pre
+//@   requires r != nil && addr != nil
+//@   callpre AddLog: log == caller_indexed && ivalue(addr) == addr(caller_log.eventLogData.Addr)
+
+// Merge ORs the other bloom into the receiver (both operands are the blooms' own integers)
+//@ func (lb *LogsBloom) Merge(lb2)
+//@   arith int
+//@   nosafety
+//@   modifies *
+//@   requires lb != nil
+//@   callpre Or: z == addr(caller_lb.Int) && x == addr(caller_lb.Int) && y == addr(caller_lb2Ptr.Int) && caller_lb2Ptr != nil
